@@ -322,5 +322,6 @@ func init() {
 	register("C12", Rule{"R07b", ruleOrderedOutput})
 	register("C02", Rule{"R06f", ruleOrderedNamesCache})
 	register("C09", Rule{"S18d", ruleScopeThreading})
+	register("C12", Rule{"R13c", ruleCheckedNarrowing})
 	register("C10", Rule{"R17d", ruleMapMissDeref}, Rule{"R17e", ruleActorRecover}, Rule{"R16d", ruleReentrantWait}, Rule{"R17a", ruleActorNoSelfComm})
 }
